@@ -24,6 +24,42 @@ var strPool = []string{"alice", "bob", "s3cr3t", "", "top", "x y", "é€", "wit
 var numPool = []string{"0", "7", "10", "-3", "10.9", "81.101", "10.999", "2.675", "1e3", "2.5E-1", "-0",
 	"123456789", "0.005", "1.005", "-12.345", "1E+2", "0.0", "99.995", "4.35"}
 
+// values that look like a digest / like data that was obfuscated before: they
+// are strings like any other and must be hashed (MD5 / SHA-1 / SHA-256 length in
+// lower- and upper-case hex, UUIDs with and without dashes, trace ids, near
+// misses of those lengths, all-digit and all-letter runs)
+var digestPool = []string{
+	"5f4dcc3b5aa765d61d8327deb882cf99",         // md5("password")
+	"d41d8cd98f00b204e9800998ecf8427e",         // md5("")
+	"5F4DCC3B5AA765D61D8327DEB882CF99",         // upper case
+	"5f4dcc3b5aa765d61d8327DEB882CF99",         // mixed
+	"da39a3ee5e6b4b0d3255bfef95601890afd80709", // sha1("")
+	"DA39A3EE5E6B4B0D3255BFEF95601890AFD80709",
+	"e3b0c44298fc1c149afbf4c8996fb92427ae41e4649b934ca495991b7852b855", // sha256("")
+	"E3B0C44298FC1C149AFBF4C8996FB92427AE41E4649B934CA495991B7852B855",
+	"123e4567-e89b-12d3-a456-426614174000", // uuid
+	"123e4567e89b12d3a456426614174000",     // uuid.hex
+	"123E4567-E89B-12D3-A456-426614174000",
+	"4bf92f3577b34da6a3ce929d0e0e4736", // W3C trace-id
+	"00f067aa0ba902b7",                 // span id (16)
+	"5f4dcc3b5aa765d61d8327deb882cf9",  // 31
+	"5f4dcc3b5aa765d61d8327deb882cf990", // 33
+	"12345678901234567890123456789012",  // 32 digits
+	"aaaaaaaaaaaaaaaaaaaaaaaaaaaaaaaa",
+	"00000000000000000000000000000000",
+	"h811c9dc5", // the look of the short hasher's digests
+	"<obfuscated>",
+}
+
+// numbers a float64 can not hold (or holds under another spelling): integers
+// above 2^53, neighbours that collapse to one float, more than 17 significant
+// digits, beyond the exponent range, negative zero, exponent spellings
+var bigNumPool = []string{"9007199254740993", "9007199254740992", "-9007199254740993",
+	"1145141919810000001", "1145141919810000002", "18446744073709551615", "1e400", "-1e400", "1E-400",
+	"0.1000000000000000055511151231257827", "1234567.123456789012345678", "0.30000000000000004",
+	"123456789012345678901234567890", "100000000000000000000000", "-0", "-0.0", "1E2", "100", "1.0", "1.10",
+	"1e2", "1.5e+3", "0e0", "12345678901234567.5"}
+
 func (g *gen) document() *Node {
 	r := g.r
 	g.budget = r.Range(6, 40)
@@ -120,13 +156,44 @@ func (g *gen) prim() *Node {
 		if g.dup {
 			return &Node{Kind: kStr, S: c.Pick(r, []string{"alice", "bob", "", "top", "x y", "null"})}
 		}
+		if r.Chance(1, 9) {
+			return &Node{Kind: kStr, S: c.Pick(r, digestPool)}
+		}
 		return &Node{Kind: kStr, S: c.Pick(r, strPool)}
 	case x < 70:
+		if r.Chance(1, 5) {
+			return &Node{Kind: kNum, S: c.Pick(r, bigNumPool)}
+		}
 		return &Node{Kind: kNum, S: c.Pick(r, numPool)}
 	case x < 85:
 		return &Node{Kind: kBool, B: r.Bool()}
 	}
 	return &Node{Kind: kNull}
+}
+
+// plantDigest: one string leaf of the document becomes the digest (under the
+// hasher of the case) of ANOTHER leaf of the same document — data that was
+// obfuscated upstream.  It must be hashed again like any other string.
+func (g *gen) plantDigest(doc *Node, hash func(string) string) bool {
+	var leaves, strs []*Node
+	doc.walk(nil, func(_ []step, n *Node) {
+		if n.isLeaf() {
+			leaves = append(leaves, n)
+			if n.Kind == kStr {
+				strs = append(strs, n)
+			}
+		}
+	})
+	if len(leaves) < 2 || len(strs) == 0 {
+		return false
+	}
+	dst := c.Pick(g.r, strs)
+	src := c.Pick(g.r, leaves)
+	if src == dst {
+		return false
+	}
+	dst.S = hash(leafText(src))
+	return true
 }
 
 // serialize writes the document as JSON text with varying white space and
@@ -359,6 +426,11 @@ func (g *gen) rawBody() string {
 			doc = &Node{Kind: kArr, A: []*Node{doc}}
 		}
 		return g.serialize(doc) + c.Pick(r, []string{"x", "}", " ,", "{}", "]"})
+	}
+	if x := r.Intn(100); x < 12 { // looks like a digest / an id (not a JSON number: a letter in it)
+		return c.Pick(r, []string{"d41d8cd98f00b204e9800998ecf8427e", "da39a3ee5e6b4b0d3255bfef95601890afd80709",
+			"e3b0c44298fc1c149afbf4c8996fb92427ae41e4649b934ca495991b7852b855", "F4DCC3B5AA765D61D8327DEB882CF995",
+			"c23e4567-e89b-12d3-a456-426614174000", "c23e4567e89b12d3a456426614174000", "4bf92f3577b34da6a3ce929d0e0e4736"})
 	}
 	return c.Pick(r, []string{"not json", "<xml><a>secret</a></xml>", "{'a':1}", "name=alice&id=7", " ",
 		"secret", "{\"a\":}", "[,]", "{\"a\" 1}", "\"unterminated", "\x00\x01binary", "key: value\nother: 2", "{", "]"})
